@@ -63,6 +63,8 @@ def run(ctx, rep):
         rep.guarded("R04-ARITY", lambda: br.rule_arity(t, rep, "R04-ARITY"))
         rep.guarded("R04-SIG", lambda: br.rule_sig(t, rep, "R04-SIG", oracle_wrong=SIG_ORACLE_WRONG))
         rep.guarded("R04-DIVMOD", lambda: r_divmod(sh, rep, t))
+        rep.rule("R04-WRAP", "consByteString: the wrapping variant reduces with mod_floor(256); the checked variant rejects both sides", floor=2)
+        rep.guarded("R04-WRAP", lambda: r_wrap(sh, rep, t))
     rep.guarded("R04-TAGS", lambda: r_tags(sh, rep))
     rep.rule("R04-TAGSITE", "the constructor-tag ranges are spelled out only in the functions R04-TAGS evaluates", floor=3)
     rep.guarded("R04-TAGSITE", lambda: r_tagsites(sh, rep, "R04-TAGSITE"))
@@ -222,36 +224,72 @@ def r_tags(sh, rep):
     dc = find_method(fa, "Data", "constr")
     rep.touched(A, "Data::constr")
     var = dc["sig"]["inputs"][0]["pat"]["name"]
-    node = [st["e"] for st in dc["body"]["stmts"] if st["k"] == "ExprStmt" and st["e"]["k"] == "If"][-1]
+    pieces, generic = _constr_pieces(sh, dc, var)
     lo = 0
-    n = 0
-    while node is not None and node["k"] == "If":
-        c = node["cond"]
-        if not (c["k"] == "Binary" and c["op"] == "<" and sh.nsrc(A, c["l"]) == var):
-            raise AnchorMissing("Data::constr condition shape")
-        hi = ev(c["r"], {}) - 1
-        tag_e = any_e = None
-        for s in walk(node["then"]):
-            if s["k"] == "Struct" and last(s["p"]) == "Constr":
-                for fi in s["fields"]:
-                    if fi["name"] == "tag":
-                        tag_e = fi["e"]
-                    if fi["name"] == "any_constructor":
-                        any_e = fi["e"]
-        okp = tag_e is not None and all(ev(tag_e, {var: x}) == apply(P_c2t, vc, x) for x in (lo, hi)) and any_e is not None and sh.nsrc(A, any_e) == "None"
-        rep.check(okp, "R04-TAGS", "Data::constr[%d..%d]" % (lo, hi), sh.loc(A, node), "Data::constr disagrees with convert_constr_to_tag on constructors %d..%d" % (lo, hi), sample={"constr": [lo, hi], "tags": [ev(tag_e, {var: lo}), ev(tag_e, {var: hi})] if tag_e else None})
+    for plo, hi, tag_e, any_e, node in pieces:
+        okp = plo == lo and tag_e is not None and all(ev(tag_e, {var: x}) == apply(P_c2t, vc, x) for x in (plo, hi)) and any_e is not None and sh.nsrc(A, any_e) == "None"
+        rep.check(okp, "R04-TAGS", "Data::constr[%d..%d]" % (plo, hi), sh.loc(A, node), "Data::constr disagrees with convert_constr_to_tag on constructors %d..%d (tags %s vs %s): a value built here is not read back by convert_tag_to_constr" % (plo, hi, [ev(tag_e, {var: x}) for x in (plo, hi)] if tag_e else None, [apply(P_c2t, vc, x) for x in (plo, hi)]), sample={"constr": [plo, hi], "tags": [ev(tag_e, {var: plo}), ev(tag_e, {var: hi})] if tag_e else None})
         lo = hi + 1
-        n += 1
-        node = node.get("else")
-    # final else: generic tag with any_constructor = Some(ix)
     okg = False
-    if node is not None:
-        for s in walk(node):
-            if s["k"] == "Struct" and last(s["p"]) == "Constr":
-                d = {fi["name"]: fi["e"] for fi in s["fields"]}
-                okg = "tag" in d and ev(d["tag"], {}) == any_tag and sh.nsrc(A, d.get("any_constructor", d["tag"])) == "Some(%s)" % var
+    if generic is not None:
+        gt, ga = generic
+        okg = gt is not None and ev(gt, {}) == any_tag and ga is not None and sh.nsrc(A, ga) == "Some(%s)" % var
     top = max(hi for _, hi, _ in P_c2t)
     rep.check(okg and lo == top + 1, "R04-TAGS", "Data::constr[generic]", sh.loc(A, dc), "beyond constructor %d Data::constr must use tag %d with any_constructor = Some(ix) (generic branch starts at %d)" % (top, any_tag, lo))
+
+
+def _constr_pieces(sh, dc, var):
+    """Data::constr as [(lo, hi, tag expr, any_constructor expr, node)] + generic (tag expr, any expr); accepts the
+    `if ix < N {..} else if ..` chain and the `match ix { lo..=hi => .., _ => .. }` form (struct or (tag, any) tuple bodies)"""
+
+    def tag_any(body):
+        for s_ in walk(body):
+            if s_["k"] == "Struct" and last(s_["p"]) == "Constr":
+                d = {fi["name"]: fi["e"] for fi in s_["fields"]}
+                if "tag" in d and "any_constructor" in d and not (d["tag"]["k"] == "Path" and d["tag"]["p"] == "tag"):
+                    return d["tag"], d["any_constructor"]
+        for s_ in walk(body):
+            if s_["k"] == "Tuple" and len(s_["es"]) == 2:
+                return s_["es"][0], s_["es"][1]
+        return None, None
+
+    pieces, generic = [], None
+    ifs = [st["e"] for st in dc["body"]["stmts"] if st["k"] == "ExprStmt" and st["e"]["k"] == "If"]
+    if ifs:
+        node = ifs[-1]
+        lo = 0
+        while node is not None and node["k"] == "If":
+            c = node["cond"]
+            if not (c["k"] == "Binary" and c["op"] in ("<", "<=") and sh.nsrc(A, c["l"]) == var):
+                raise AnchorMissing("Data::constr condition shape")
+            hi = ev(c["r"], {}) - (1 if c["op"] == "<" else 0)
+            t, a_ = tag_any(node["then"])
+            pieces.append((lo, hi, t, a_, node))
+            lo = hi + 1
+            node = node.get("else")
+        if node is not None:
+            generic = tag_any(node)
+        return pieces, generic
+    for m in matches_in(dc["body"], lambda e: e["k"] == "Path" and e["p"] == var):
+        for a_ in m["arms"]:
+            p = a_["pat"]
+            if p["k"] == "PRange" and p.get("lo") and p.get("hi"):
+                lo, hi = ev(p["lo"], {}), ev(p["hi"], {})
+                if not p["closed"]:
+                    hi -= 1
+                t, an = tag_any(a_["body"])
+                pieces.append((lo, hi, t, an, a_))
+            elif p["k"] == "PLit":
+                v = ev(p["e"], {})
+                t, an = tag_any(a_["body"])
+                pieces.append((v, v, t, an, a_))
+            elif is_catch_all(p):
+                generic = tag_any(a_["body"])
+            else:
+                raise AnchorMissing("Data::constr match arm shape")
+        pieces.sort(key=lambda x: x[0])
+        return pieces, generic
+    raise AnchorMissing("Data::constr: neither an if-chain nor a match on the constructor index")
 
 
 def const_int(fj, name):
@@ -354,3 +392,28 @@ def r_tagsites(sh, rep, rid):
             rep.bad(rid, "tag-map-site#%s#%s" % (rel.split("/")[-1], q), sh.loc(rel, hits[0]), "%s in %s spells out the constructor-tag ranges (121.. / 1280..1400) itself instead of calling convert_tag_to_constr / convert_constr_to_tag / Data::constr: a private copy of the map that R04-TAGS does not evaluate — an off-by-one here changes which Data value is printed, decoded or built" % (q, rel))
     for o in sorted(TAG_MAP_OWNERS - owners_seen):
         rep.bad(rid, "tag-map-site#%s#missing" % o[1], o[0], "expected the tag ranges in %s (anchor of R04-TAGS)" % o[1])
+
+
+# ---------------------------------------------------------------------------------------------------------
+# R04-WRAP: consByteString without range checks wraps with a *floor* modulo 256
+# ---------------------------------------------------------------------------------------------------------
+def r_wrap(sh, rep, t):
+    """spec (Plutus builtins, pre-Chang semantics): consByteString n bs prepends `n mod 256` with mod = floor modulo, so
+    -1 becomes 0xff. Decided here: which operation reduces the integer — it must be `mod_floor` by the literal 256; the
+    truncating family (`%`, rem, low byte of the magnitude) differs exactly on negative inputs."""
+    arm = t.call.get("ConsByteString")
+    if arm is None:
+        raise AnchorMissing("call arm ConsByteString")
+    rep.touched(RT, "DefaultFunction::call#ConsByteString")
+    ifs = [n for n in walk(arm["body"]) if n["k"] == "If" and any(c["k"] == "MethodCall" and c["m"] == "cons_byte_string_range_checks" for c in walk(n["cond"]))]
+    if not ifs or "else" not in ifs[0]:
+        raise AnchorMissing("if semantics.cons_byte_string_range_checks() {..} else {..} in ConsByteString")
+    els = ifs[0]["else"]
+    mods = [c for c in calls_in(els) if c["k"] == "MethodCall" and c["m"] == "mod_floor"]
+    lit256 = any(x["k"] == "Lit" and x.get("v") == "256" for m in mods for x in walk(m["args"][0])) if mods else False
+    other = [c["m"] for c in calls_in(els) if c["k"] == "MethodCall" and c["m"] in ("to_bytes_le", "to_bytes_be", "to_u8", "rem_euclid", "div_rem", "to_u64_digits", "iter_u64_digits")] + [n["op"] for n in walk(els) if n["k"] == "Binary" and n["op"] in ("%", "&")]
+    rep.check(bool(mods) and lit256 and not other, "R04-WRAP", "ConsByteString#wrap-is-floor-mod-256", sh.loc(RT, els), "the wrapping branch of consByteString must reduce the integer with mod_floor(256) (floor modulo: -1 -> 0xff); found %s%s — a truncating / magnitude-based reduction gives another byte for every negative input not divisible by 256" % ([c["m"] for c in mods] or "no mod_floor", (" and " + str(other)) if other else ""), sample={"ops": [c["m"] for c in mods]})
+    # the range-checked branch rejects both sides before converting
+    then = ifs[0]["then"]
+    cmp_ops = {n["op"] for n in walk(then) if n["k"] == "Binary" and n["op"] in ("<", ">", "<=", ">=")}
+    rep.check({"<", ">"} <= cmp_ops or {"<=", ">="} <= cmp_ops or len(cmp_ops) >= 2, "R04-WRAP", "ConsByteString#range-check-two-sided", sh.loc(RT, then), "the range-checked branch must reject both n < 0 and n > 255 (found comparisons %s)" % sorted(cmp_ops))
